@@ -6,14 +6,14 @@
    path, with exactly the differences handed over (C07_only_offending_reported: "for no other path"), and conversely every entry
    of the merged dictionary and every file found by the walk whose check fails IS reported, whichever directory it belongs to
    (C07_every_offending_path_reported; Proofs/WalkComplete.v).  And no path is handed to the handler twice
-   (C07_each_path_reported_at_most_once; Proofs/Once.v, Proofs/DictWf.v): the relative paths of different directory visits never
-   coincide, the trailing pass reports entries of directories that were not visited - for the verification of a sub-directory of
-   a tree whose directory listings have unique, non-empty, slash-free names.  PARTIAL: for the top directory (start path '') the
-   same holds on the generated trees of the correspondence engine, which compares the complete ordered call log. *)
+   (C07_each_path_reported_at_most_once; Proofs/Once.v, Proofs/DictWf.v, Proofs/Relative.v): the relative paths of different
+   directory visits never coincide, the trailing pass reports entries of directories that were not visited - for any requested
+   path, the whole tree included, on a tree whose directory listings have unique, non-empty, slash-free names, with a loader whose
+   Manifests name relative paths (what the parser accepts; kept by loading: C07_loader_names_relative_paths). *)
 From Coq Require Import List NArith ZArith.
 From Gemato Require Import Py.PyStr Py.PyPath Gen.Tables Model.Entry Model.Text Model.OpenPGP Model.Hash
   Model.FS Model.Verify Model.Loader.
-From Gemato Require Import Proofs.KeepGoing Proofs.DirSpec Proofs.OnlyOffending Proofs.WalkComplete Proofs.WalkTerm Proofs.Once Proofs.DictWf.
+From Gemato Require Import Proofs.KeepGoing Proofs.DirSpec Proofs.OnlyOffending Proofs.WalkComplete Proofs.WalkTerm Proofs.Once Proofs.DictWf Proofs.Relative.
 From Gemato Require Import Exec.Oracles.
 Import ListNotations.
 Open Scope N_scope.
@@ -70,41 +70,56 @@ Print Assumptions C07_every_offending_path_reported.
 
 (* "exactly once": the log of a directory verification - the walk and the trailing pass - names no path twice.
    wf_world / nodup_world: the names in every directory are non-empty, slash-free and unique (what a real directory provides);
-   rel_ok / rel_start: the verified path is non-empty, relative and has no trailing slash (a sub-directory of the tree). *)
+   key_ok path: the requested path is '' (the whole tree) or non-empty without a trailing slash;
+   lrel l: the loaded Manifests have relative, non-empty paths and entries as the parser accepts them. *)
 Theorem C07_each_path_reported_at_most_once : forall (L : hashlib) decompress pgp w l path pol lm l' b log,
+  wf_world w -> nodup_world w -> key_ok path -> lrel l ->
+  assert_directory_verifies L decompress pgp w l path pol lm = Ok (l', b, log) ->
+  NoDup (map fst log).
+Proof. exact each_path_reported_at_most_once_any. Qed.
+Print Assumptions C07_each_path_reported_at_most_once.
+
+(* a loader constructed on a relative top-level Manifest name satisfies lrel, and the directory verification keeps it *)
+Theorem C07_loader_names_relative_paths : forall (L : hashlib) decompress pgp w top opts ax l,
+  rel_path top -> new_loader L decompress pgp w top opts false ax = Ok l -> lrel l.
+Proof. exact new_loader_rel. Qed.
+Print Assumptions C07_loader_names_relative_paths.
+
+(* the same without a premise on the loader, for the verification of a sub-directory given by a relative path *)
+Theorem C07_each_path_reported_at_most_once_subdirectory : forall (L : hashlib) decompress pgp w l path pol lm l' b log,
   wf_world w -> nodup_world w -> rel_ok path -> rel_start path ->
   assert_directory_verifies L decompress pgp w l path pol lm = Ok (l', b, log) ->
   NoDup (map fst log).
 Proof. exact each_path_reported_at_most_once. Qed.
-Print Assumptions C07_each_path_reported_at_most_once.
+Print Assumptions C07_each_path_reported_at_most_once_subdirectory.
 
-(* non-vacuity: top-level Manifest 'MANIFEST s/Manifest 9', s/Manifest 'DATA a 1', files s/a (content differs in size: 2 bytes) and
-   the unlisted s/b; the premises hold, the keep-going verification of s reports s/a and s/b, once each *)
+(* non-vacuity: top-level Manifest 'MANIFEST s/Manifest 9', s/Manifest 'DATA a 1', files s/a (2 bytes: the size differs), the unlisted
+   s/b and the unlisted b; the premises hold; the keep-going verification of the whole tree reports b, s/a and s/b, once each *)
 Definition c07_w : world :=
-  mk_world 1 [(1, IDir 7 1 [([77;97;110;105;102;101;115;116], TIno 2); ([115], TIno 4)]);
+  mk_world 1 [(1, IDir 7 1 [([77;97;110;105;102;101;115;116], TIno 2); ([115], TIno 4); ([98], TIno 7)]);
               (2, IFile 7 0 22 [77;65;78;73;70;69;83;84;32;115;47;77;97;110;105;102;101;115;116;32;57;10]);
               (4, IDir 7 1 [([77;97;110;105;102;101;115;116], TIno 5); ([97], TIno 3); ([98], TIno 6)]);
               (5, IFile 7 0 9 [68;65;84;65;32;97;32;49;10]);
-              (3, IFile 7 0 2 [120;120]); (6, IFile 7 0 1 [121])] [] [].
+              (3, IFile 7 0 2 [120;120]); (6, IFile 7 0 1 [121]); (7, IFile 7 0 1 [122])] [] [].
 Definition c07_dec : list N -> list N -> res (list N) := fun _ _ => Err XBadCompressed.
 Definition c07_pgp : list N -> res sigdata := fun _ => Err (XPGP PGPNoImpl).
 Example C07_once_example :
-  wf_world c07_w /\ nodup_world c07_w /\ rel_ok [115] /\ rel_start [115] /\
-  exists l0 l' d1 d2,
+  wf_world c07_w /\ nodup_world c07_w /\ key_ok [] /\ rel_path [77;97;110;105;102;101;115;116] /\
+  exists l0 l' d1 d2 d3,
     new_loader (table_hashlib []) c07_dec c07_pgp c07_w [77;97;110;105;102;101;115;116] (mk_opts None false None [] PDefault None None false) false true = Ok l0 /\
-    assert_directory_verifies (table_hashlib []) c07_dec c07_pgp c07_w l0 [115] PolFalse None
-      = Ok (l', false, [([115;47;97], d1); ([115;47;98], d2)]).
+    assert_directory_verifies (table_hashlib []) c07_dec c07_pgp c07_w l0 [] PolFalse None
+      = Ok (l', false, [([98], d1); ([115;47;97], d2); ([115;47;98], d3)]).
 Proof.
   assert (V : forall n : list N, n = [77;97;110;105;102;101;115;116] \/ n = [115] \/ n = [97] \/ n = [98] -> valid_name n).
   { intros n [-> | [-> | [-> | ->]]]; (split; [discriminate|]); cbn; intros H; repeat (destruct H as [H|H]; [discriminate|]); exact H. }
   split.
   { intros i dev par ents Hin n t Hn. cbn in Hin. repeat (destruct Hin as [Hin|Hin]; [inversion Hin; subst; cbn in Hn|]); try destruct Hin.
-    - destruct Hn as [Hn|[Hn|[]]]; inversion Hn; subst; apply V; tauto.
+    - destruct Hn as [Hn|[Hn|[Hn|[]]]]; inversion Hn; subst; apply V; tauto.
     - destruct Hn as [Hn|[Hn|[Hn|[]]]]; inversion Hn; subst; apply V; tauto. }
   split.
   { intros i dev par ents Hin. cbn in Hin. repeat (destruct Hin as [Hin|Hin]; [inversion Hin; subst; cbn|]); try destruct Hin.
     - repeat constructor; cbn; intros H; repeat (destruct H as [H|H]; [discriminate|]); exact H.
     - repeat constructor; cbn; intros H; repeat (destruct H as [H|H]; [discriminate|]); exact H. }
-  split; [split; [discriminate|vm_compute; reflexivity]|]. split; [cbn; discriminate|].
-  do 4 eexists. split; [vm_compute; reflexivity|vm_compute; reflexivity].
+  split; [left; reflexivity|]. split; [split; [discriminate|cbn; discriminate]|].
+  do 5 eexists. split; [vm_compute; reflexivity|vm_compute; reflexivity].
 Qed.
